@@ -176,4 +176,61 @@ theorem chol_eq [CharZero K] (lt : n → n → Prop) [DecidableRel lt]
   rw [e1, hPhi, hLGL]
   abel
 
+/-! ## LU (`UTPM.lu2` / `UTPM.lu`, utpm.py): `dF = Wᵀ A_d − Σ_{1≤i<d} L_{d-i} U_i`,
+`F = L₀⁻¹ dF U₀⁻¹`, `U_d = triu(F) U₀`, `L_d = L₀ tril(F, -1)` -/
+
+/-- upper part including the diagonal -/
+def PU (lt : n → n → Prop) [DecidableRel lt] (M : Matrix n n K) : Matrix n n K :=
+  Matrix.of fun i j => if lt j i then 0 else M i j
+
+theorem PL_add_PU (lt : n → n → Prop) [DecidableRel lt] (M : Matrix n n K) : PL lt M + PU lt M = M := by
+  ext i j
+  simp only [PL, PU, Matrix.add_apply, Matrix.of_apply]
+  split <;> simp
+
+structure LUStep (lt : n → n → Prop) [DecidableRel lt]
+    (B L U : ℕ → Matrix n n K) (L0inv U0inv : Matrix n n K) (d : ℕ) where
+  dF : Matrix n n K
+  F : Matrix n n K
+  hdF : dF = B d - ∑ k ∈ Finset.Ico 1 d, L (d - k) * U k
+  hF : F = L0inv * dF * U0inv
+  hU : U d = PU lt F * U 0
+  hL : L d = L 0 * PL lt F
+
+/-- `L·U = Wᵀ A` at order `d` (`B = Wᵀ A` is the row-permuted input) -/
+theorem lu_eq (lt : n → n → Prop) [DecidableRel lt] (B L U : ℕ → Matrix n n K) (L0inv U0inv : Matrix n n K)
+    (d : ℕ) (hd : 1 ≤ d) (hL0 : L 0 * L0inv = 1) (hU0 : U0inv * U 0 = 1) (st : LUStep lt B L U L0inv U0inv d) :
+    ∑ k ∈ Finset.range (d + 1), L k * U (d - k) = B d := by
+  rw [sum_split _ d hd]
+  simp only [Nat.sub_zero, Nat.sub_self]
+  have hsum : ∑ k ∈ Finset.Ico 1 d, L k * U (d - k) = B d - st.dF := by
+    rw [st.hdF]
+    have : ∑ k ∈ Finset.Ico 1 d, L k * U (d - k) = ∑ k ∈ Finset.Ico 1 d, L (d - k) * U k := by
+      apply Finset.sum_bij' (fun k _ => d - k) (fun k _ => d - k)
+      · intro k hk; simp only [Finset.mem_Ico] at hk ⊢; omega
+      · intro k hk; simp only [Finset.mem_Ico] at hk ⊢; omega
+      · intro k hk; simp only [Finset.mem_Ico] at hk; omega
+      · intro k hk; simp only [Finset.mem_Ico] at hk; omega
+      · intro k hk
+        simp only [Finset.mem_Ico] at hk
+        have : d - (d - k) = k := by omega
+        rw [this]
+    rw [this]; abel
+  have hmain : L 0 * U d + L d * U 0 = st.dF := by
+    rw [st.hU, st.hL]
+    calc L 0 * (PU lt st.F * U 0) + L 0 * PL lt st.F * U 0
+        = L 0 * (PL lt st.F + PU lt st.F) * U 0 := by
+          simp only [Matrix.mul_add, Matrix.add_mul, Matrix.mul_assoc]; rw [add_comm]
+      _ = L 0 * st.F * U 0 := by rw [PL_add_PU]
+      _ = (L 0 * L0inv) * st.dF * (U0inv * U 0) := by rw [st.hF]; simp only [Matrix.mul_assoc]
+      _ = st.dF := by rw [hL0, hU0, Matrix.one_mul, Matrix.mul_one]
+  rw [hsum, hmain]
+  abel
+
+/-- triangularity is preserved: `U_d` is upper and `L_d` strictly lower when `U₀` is upper, `L₀` lower -/
+theorem PL_strict (lt : n → n → Prop) [DecidableRel lt] (M : Matrix n n K) (i j : n) (h : ¬ lt j i) :
+    PL lt M i j = 0 := by simp [PL, h]
+theorem PU_upper (lt : n → n → Prop) [DecidableRel lt] (M : Matrix n n K) (i j : n) (h : lt j i) :
+    PU lt M i j = 0 := by simp [PU, h]
+
 end AV.Factor
